@@ -30,12 +30,23 @@ SERIALS = ["000000P0000000Q1F0C9D153F7B40000", "0" * 32, "ZZZZZZZZZZZZZZZZzzzzzz
 
 
 def bounds(tier):
-    return {"ids": len(IDS), "ports": PORTS, "serials": len(SERIALS), "type_bytes": 256, "hex_case": 2, "name_lengths": "5..255", "versions": [2, 3],
-            "listen_ports": [6445, 20086], "hosts_per_broadcast": 12}
+    b = {"ids": len(IDS), "ports": PORTS, "serials": len(SERIALS), "type_bytes": 256, "hex_case": 2, "name_lengths": "5..255", "versions": [2, 3],
+         "listen_ports": [6445, 20086], "hosts_per_broadcast": 12, "hosts": len(all_hosts(tier))}
+    if tier == "thorough":
+        b.update({"ports": "every port 1..65535", "ids": f"{len(IDS)} boundary values + every single-bit id, its complement and every byte "
+                  "position x {00,7F,80,FF} over 00.. / FF.. backgrounds", "full_product": "ids x ports x serials x version x listen port x "
+                  "same/different reported IP x {AC, A1}", "type_bytes": "256 x hex case x version x same/different reported IP"})
+    return b
 
 
-def all_hosts():
-    """Full sweep of each axis + a pairwise-ish product; returns list of host descriptors."""
+import functools  # noqa: E402
+
+
+@functools.lru_cache(maxsize=None)
+def all_hosts(tier="quick"):
+    """Full sweep of each axis + a pairwise-ish product; returns list of host descriptors.  The thorough tier adds every port
+    1..65535, a bit/byte-walk over the 48-bit device id, all type bytes under both versions and the full product of the quick
+    tier's per-axis alphabets (the quick tier only has their pairwise combination)."""
     out = []
 
     def h(idv, port, sn, tt, upper, same_ip, version, lport):
@@ -65,6 +76,34 @@ def all_hosts():
             for version in (2, 3):
                 for lport in (6445, 20086):
                     h(IDS[12], 6444, sn, 0xAC, False, same, version, lport)
+    if tier != "thorough":
+        return out
+    for port in range(1, 65536):
+        h(IDS[port % len(IDS)], port, SERIALS[port % 3], 0xAC if port % 5 else 0xDB, port % 2 == 0, port % 3 == 0, 2 + port % 2, 6445 if port % 7 else 20086)
+    walk = set()
+    for bit in range(48):
+        walk.add(1 << bit)
+        walk.add((2 ** 48 - 1) ^ (1 << bit))
+    for pos in range(6):
+        for v in (0x00, 0x7F, 0x80, 0xFF):
+            for bg in (0x000000000000, 0xFFFFFFFFFFFF, 0x112233445566):
+                walk.add((bg & ~(0xFF << (8 * pos))) | (v << (8 * pos)))
+    for k, idv in enumerate(sorted(walk)):
+        for version in (2, 3):
+            h(idv, PORTS[k % len(PORTS)], SERIALS[k % 3], 0xAC, k % 2 == 0, k % 3 != 0, version, 6445 if (k + version) % 2 else 20086)
+    for tt in range(256):
+        for upper in (False, True):
+            for version in (2, 3):
+                for same in (True, False):
+                    h(IDS[(tt + 7) % len(IDS)], PORTS[(tt + 1) % len(PORTS)], SERIALS[(tt + 1) % 3], tt, upper, same, version, 6445)
+    for idv in IDS:
+        for port in PORTS:
+            for sn in SERIALS:
+                for version in (2, 3):
+                    for lport in (6445, 20086):
+                        for same in (True, False):
+                            for tt in (0xAC, 0xA1):
+                                h(idv, port, sn, tt, False, same, version, lport)
     return out
 
 
@@ -85,7 +124,7 @@ def lastbyte_hosts():
 
 
 def shards(tier):
-    n = len(all_hosts())
+    n = len(all_hosts(tier))
     per = 12
     groups = list(range(0, n, per))
     out = [("broadcast", g) for g in groups]
@@ -147,7 +186,7 @@ def ident(dev):
 def run_shard(shard, tier) -> Stats:
     mode, g = shard
     st = Stats()
-    descs = [dict(d) for d in all_hosts()[g:g + 12]]
+    descs = [dict(d) for d in all_hosts(tier)[g:g + 12]]
     if mode == "lastbyte":
         descs = lastbyte_hosts()
     if mode in ("single", "hostname"):
